@@ -1,0 +1,110 @@
+//! Accessors for crate-private linear-code items (only with `--cfg pc_verif`).
+use super::data_structures::{
+    LinCodePCCommitment, LinCodePCCommitmentState, LinCodePCProof, LinCodePCProofSingle, Metadata,
+};
+use crate::Error;
+use ark_crypto_primitives::{
+    crh::CRHScheme,
+    merkle_tree::{Config, Path},
+    sponge::CryptographicSponge,
+};
+use ark_ff::{FftField, PrimeField};
+#[cfg(not(feature = "std"))]
+use ark_std::vec::Vec;
+
+/// Wrapper around `utils::calculate_t`.
+pub fn calculate_t<F: PrimeField>(
+    sec_param: usize,
+    distance: (usize, usize),
+    codeword_len: usize,
+) -> Result<usize, Error> {
+    super::utils::calculate_t::<F>(sec_param, distance, codeword_len)
+}
+
+/// Wrapper around `utils::get_indices_from_sponge`.
+pub fn get_indices_from_sponge<S: CryptographicSponge>(
+    n: usize,
+    t: usize,
+    sponge: &mut S,
+) -> Result<Vec<usize>, Error> {
+    super::utils::get_indices_from_sponge(n, t, sponge)
+}
+
+/// Wrapper around `utils::get_num_bytes`.
+pub fn get_num_bytes(n: usize) -> usize {
+    super::utils::get_num_bytes(n)
+}
+
+/// Wrapper around `utils::reed_solomon`.
+pub fn reed_solomon<F: FftField>(msg: &[F], rho_inv: usize) -> Vec<F> {
+    super::utils::reed_solomon(msg, rho_inv)
+}
+
+/// Wrapper around `utils::tensor_vec`.
+pub fn tensor_vec<F: PrimeField>(values: &[F]) -> Vec<F> {
+    super::utils::tensor_vec(values)
+}
+
+/// `(n_rows, n_cols, n_ext_cols, root)` of a commitment.
+pub fn commitment_parts<C: Config>(
+    c: &LinCodePCCommitment<C>,
+) -> (usize, usize, usize, C::InnerDigest) {
+    (
+        c.metadata.n_rows,
+        c.metadata.n_cols,
+        c.metadata.n_ext_cols,
+        c.root.clone(),
+    )
+}
+
+/// Build a commitment from `(n_rows, n_cols, n_ext_cols, root)`.
+pub fn commitment_from_parts<C: Config>(
+    n_rows: usize,
+    n_cols: usize,
+    n_ext_cols: usize,
+    root: C::InnerDigest,
+) -> LinCodePCCommitment<C> {
+    LinCodePCCommitment {
+        metadata: Metadata {
+            n_rows,
+            n_cols,
+            n_ext_cols,
+        },
+        root,
+    }
+}
+
+/// `(rows of mat, columns of ext_mat, leaves)` of a commitment state.
+pub fn state_parts<F: PrimeField, H: CRHScheme>(
+    s: &LinCodePCCommitmentState<F, H>,
+) -> (Vec<Vec<F>>, Vec<Vec<F>>, Vec<H::Output>)
+where
+    H::Output: Clone,
+{
+    (s.mat.rows(), s.ext_mat.cols(), s.leaves.clone())
+}
+
+/// `(paths, v, columns, well_formedness)` of a single-polynomial proof.
+pub fn proof_parts<F: PrimeField, C: Config>(
+    p: &LinCodePCProof<F, C>,
+) -> (Vec<Path<C>>, Vec<F>, Vec<Vec<F>>, Option<Vec<F>>) {
+    (
+        p.opening.paths.clone(),
+        p.opening.v.clone(),
+        p.opening.columns.clone(),
+        p.well_formedness.clone(),
+    )
+}
+
+/// Build a single-polynomial proof from `(paths, v, columns, well_formedness)`.
+pub fn proof_from_parts<F: PrimeField, C: Config>(
+    paths: Vec<Path<C>>,
+    v: Vec<F>,
+    columns: Vec<Vec<F>>,
+    well_formedness: Option<Vec<F>>,
+) -> LinCodePCProof<F, C> {
+    LinCodePCProof {
+        opening: LinCodePCProofSingle { paths, v, columns },
+        well_formedness,
+    }
+}
